@@ -204,7 +204,7 @@ func init() {
 		Level: "exploration",
 		Rule: fmt.Sprintf("pool = every combination of the features the comparison reads (exception x important x 6 $domain shapes (incl. wildcard-TLD only) x 5 content-type shapes x third-party x match-case x $dnstype x $ctag x $client x $denyallow, plus rules carrying 10..16 modifiers (all content types and more), = %d rules); "+
 			"exhaustive over the pool: irreflexivity, asymmetry and agreement with class order / specific-over-generic for all ordered pairs, the winner of both selection functions on every ordered pair, add-one-modifier => strictly higher for every rule; "+
-			"transitivity of > and of incomparability on all triples of PRNG-drawn 90-rule subsets; selection maximality for candidate lists of 2..5 rules in all permutations through NewMatchingResult and GetDNSBasicRule, and through NetworkEngine.Match / Engine.MatchRequest / DNSEngine.MatchRequest with the candidates spread over the three lookup tables; "+
+			"transitivity of > and of incomparability on all triples of PRNG-drawn 90-rule subsets; selection maximality for candidate lists of 2..5 rules in all permutations (one in thirty: 13..60 rules in 24 PRNG-drawn orders) through NewMatchingResult and GetDNSBasicRule, and through NetworkEngine.Match / Engine.MatchRequest / DNSEngine.MatchRequest with the candidates spread over the three lookup tables; "+
 			"non-trivial = pool rule compared against the whole pool (its ordered pairs are counted in events.ordered_pairs), triple subset, or candidate list; distinct by the rule texts involved", len(c07Pool)),
 		Assumptions: []string{
 			"'exhaustive' is relative to the pool; document-level options are excluded from add-a-modifier because they replace the content-type set",
@@ -304,6 +304,11 @@ func init() {
 			default:
 				// Selection maximality over all permutations.
 				k := 2 + c.Rng.Intn(4)
+				if c.Rng.Intn(30) == 0 {
+					// Long candidate lists, in 24 PRNG-drawn orders.
+					k = 13 + c.Rng.Intn(48)
+					c.Event("long_candidate_lists", 1)
+				}
 				cand := make([]*c07Rule, k)
 				for i := range cand {
 					cand[i] = pool[c.Rng.Intn(len(pool))]
@@ -313,7 +318,15 @@ func init() {
 					texts = append(texts, r.Text)
 				}
 				var winners []*rules.NetworkRule
-				permute(k, func(p []int) {
+				each := func(f func(p []int)) { permute(k, f) }
+				if k > 6 {
+					each = func(f func(p []int)) {
+						for i := 0; i < 24; i++ {
+							f(c.Rng.Perm(k))
+						}
+					}
+				}
+				each(func(p []int) {
 					rs := make([]*rules.NetworkRule, k)
 					for i, pi := range p {
 						rs[i] = cand[pi].Rule
